@@ -1,7 +1,8 @@
 """C08 A crash at any instant leaves each hash file old-complete or new-complete."""
 import fsfam
 
-WRONG = {"MC_StoreFS_bad_nofsynctmp.cfg": "CrashAtomic", "MC_StoreFS_bad_inplace.cfg": "CrashAtomic"}
+WRONG = {"MC_StoreFS_bad_nofsynctmp.cfg": "CrashAtomic", "MC_StoreFS_bad_inplace.cfg": "CrashAtomic",
+         "MC_StoreFS_bad_inplace_reader.cfg": "ReaderSeesWhole"}
 
 
 def model(ctx, wrong):
@@ -27,7 +28,9 @@ def run(ctx):
     fsfam.judge_traces(ctx, [(b["case"], b["lines"]) for b in bl], "syscalls")
     per_case, nkill, njobs = fsfam.kill_runs(ctx, drv, bl)
     fsfam.judge_traces(ctx, per_case, "killstates")
+    nread, nreadjobs = fsfam.reader_runs(ctx, drv, bl)
     cov = ctx.coverage
+    cov["concurrent_reader_observations"] = nread
     cov["traces_validated_against_impl"] = len(bl) + nkill
     cov["evaluations"] = len(bl) + nkill
     cov["distinct_nontrivial"] = nkill
